@@ -4,7 +4,7 @@
    data (signed tensors included), on the iteration caps or on when the loops stop.
    vnn v = every entry of the vector >= 0;  mnn M = every entry of the matrix >= 0;  vge eps v = every entry >= eps. *)
 From Coq Require Import List Arith Bool Reals QArith Lra.
-From TLV Require Import Base.Shape Base.PyList Base.Tensor Base.Ops Model.Nonneg Proofs.NonnegProofs Proofs.NonnegProofs2.
+From TLV Require Import Base.Shape Base.PyList Base.Tensor Base.Ops Model.Nonneg Model.NonnegSign Proofs.NonnegProofs Proofs.NonnegProofs2 Proofs.NonnegSignProofs.
 Import ListNotations.
 Open Scope R_scope.
 
@@ -274,6 +274,29 @@ Theorem C10_init_then_parafac2 : forall (nrm : list R -> R), (forall v, 0 <= nrm
 Proof. exact init_then_parafac2. Qed.
 Print Assumptions C10_init_then_parafac2.
 
+(* ---- corr:C10-static: the sign analysis run on every check on the bodies of non_negative_parafac, non_negative_parafac_hals,
+        non_negative_tucker, non_negative_tucker_hals as regenerated from the CURRENT Python source (Model/NonnegSign.v).
+        Values are bags of entries; `reach prog` = the assignments of the body executed in any order, any number of times (every control
+        flow, iteration cap and stopping behaviour is an instance); calls of the solvers / normalisations / initialisers evaluate to the
+        functions of Model/Nonneg.v. *)
+(* every value an expression can take satisfies the sign the analysis computes for it *)
+Theorem C10_sign_expression_sound : forall (a : aenv) (st : state), gamma a st -> forall (e : sx) (l : list R), ev st e l -> sat (asign a e) l.
+Proof. exact asign_sound. Qed.
+Print Assumptions C10_sign_expression_sound.
+
+(* the call contracts are theorems about the model functions: hals_nnls (epsilon >= 0), fista (non_negative, epsilon >= 0), active_set_nnls
+   (whenever it returns), cp_normalize, tucker_normalize, initialize_cp (built-in: abs; user: weights into the last factor), initialize_tucker (abs) *)
+Theorem C10_sign_contracts_sound : forall (f : fn) (l0 l1 : list R), contract f l0 l1 -> vnn l0 -> vnn l1.
+Proof. exact contract_sound. Qed.
+Print Assumptions C10_sign_contracts_sound.
+
+(* verdict 0 for a regenerated body => in EVERY state reachable from an initial state satisfying the assumptions on the parameters
+   (a0: user initialisation entrywise >= 0, nothing about the data tensor), every value of the returned expression is entrywise >= 0 *)
+Theorem C10_sign_analysis_sound : forall (prog : list stmt) (a0 : aenv) (ret : sx), sign_verdict prog a0 ret = 0%nat ->
+  forall (st0 st : state) (l : list R), gamma a0 st0 -> reach prog st0 st -> ev st ret l -> vnn l.
+Proof. exact sign_verdict_sound. Qed.
+Print Assumptions C10_sign_analysis_sound.
+
 (* ---- non-vacuity and sharpness *)
 (* the hypotheses are satisfiable; the model computes on a signed tensor *)
 Example C10_nonvacuous_hypotheses : 0 < 1 / 1000 /\ vnn [1] /\ Forall mnn [[[1]; [1]]; [[1]; [1]]].
@@ -299,3 +322,11 @@ Example C10_undeclared_mode_unconstrained :
     qneg (nth 0 (nth 0 (nth 1 (snd (non_negative_parafac_hals Qops (fun _ => 1%Q) utm utu solve inner (fun _ _ => false) [0]%nat
                                      [None; None] false [0; 1]%nat 1 ([1%Q], [[[1%Q]]; [[1%Q]]]))) []) []) 0%Q).
 Proof. exact undeclared_mode_unconstrained_witness. Qed.
+(* the analysis accepts a miniature multiplicative-update body and rejects it once the clip of the numerator is removed; the
+   statement semantics is inhabited *)
+Example C10_sign_analysis_accepts : sign_verdict (mini_mu true) mini_a0 (XPair (XVar 2%nat) (XVar 3%nat)) = 0%nat.
+Proof. exact sign_verdict_accepts. Qed.
+Example C10_sign_analysis_rejects : sign_verdict (mini_mu false) mini_a0 (XPair (XVar 2%nat) (XVar 3%nat)) = 2%nat.
+Proof. exact sign_verdict_rejects. Qed.
+Example C10_sign_semantics_inhabited : exists st, reach (mini_mu true) (fun _ => []) st /\ st 1%nat = [1].
+Proof. exact reach_nonvacuous. Qed.
